@@ -14,6 +14,7 @@ import (
 	"errors"
 	"fmt"
 	"io"
+	"net"
 	"runtime"
 	"strconv"
 	gosync "sync"
@@ -425,7 +426,25 @@ var MapOrder func(label string, n int) int
 // order of map iteration unspecified; under a scheduler (or when MapOrder is set) the keys are sorted by
 // key(k) and then rotated by an explored choice, so that the order is owned by the harness. Otherwise the
 // native order is kept and key is never called.
-func RangeOrder[K comparable, V any](m map[K]V, key func(K) string) []K {
+// KeyOf is the canonical sort key of a map key of any type the rewritten files range over (so that the rewrite does
+// not depend on the key type a tree under test happens to use): a connection by its remote address, numbers zero-padded.
+func KeyOf(k any) string {
+	switch v := k.(type) {
+	case interface{ RemoteAddr() net.Addr }:
+		return v.RemoteAddr().String()
+	case string:
+		return v
+	case uint32:
+		return fmt.Sprintf("%010d", v)
+	case int:
+		return fmt.Sprintf("%020d", v)
+	case uint64:
+		return fmt.Sprintf("%020d", v)
+	}
+	return fmt.Sprint(k)
+}
+
+func RangeOrder[K comparable, V any](m map[K]V, key func(any) string) []K {
 	keys := make([]K, 0, len(m))
 	for k := range m {
 		keys = append(keys, k)
